@@ -9,3 +9,58 @@ pub mod fp {
         fp128, fp32, fp64, small_fields_u16, small_fields_u8, RawField,
     };
 }
+
+/// NTT and Lagrange-basis polynomial routines (crate-private in `ntt` / `polynomial`).
+pub mod poly {
+    use crate::field::NttFriendlyFieldElement;
+    pub use crate::ntt::NttError;
+
+    /// `ntt::ntt`
+    pub fn ntt<F: NttFriendlyFieldElement>(outp: &mut [F], inp: &[F], size: usize) -> Result<(), NttError> {
+        crate::ntt::ntt(outp, inp, size)
+    }
+    /// `ntt::ntt_set_s`
+    pub fn ntt_set_s<F: NttFriendlyFieldElement>(outp: &mut [F], inp: &[F], size: usize) -> Result<(), NttError> {
+        crate::ntt::ntt_set_s(outp, inp, size)
+    }
+    /// `ntt::ntt_inv`
+    pub fn ntt_inv<F: NttFriendlyFieldElement>(outp: &mut [F], inp: &[F], size: usize) -> Result<(), NttError> {
+        crate::ntt::ntt_inv(outp, inp, size)
+    }
+    /// `polynomial::poly_eval_lagrange_batched`
+    pub fn poly_eval_lagrange_batched<F: NttFriendlyFieldElement>(polynomials: &[Vec<F>], x: F) -> Vec<F> {
+        crate::polynomial::poly_eval_lagrange_batched(polynomials, x)
+    }
+    /// `polynomial::nth_root_powers`
+    pub fn nth_root_powers<F: NttFriendlyFieldElement>(n: usize) -> Vec<F> {
+        crate::polynomial::nth_root_powers(n)
+    }
+    /// `polynomial::extend_values_to_power_of_2`
+    pub fn extend_values_to_power_of_2<F: NttFriendlyFieldElement>(polynomial: &mut [F], num_values: usize) {
+        crate::polynomial::extend_values_to_power_of_2(polynomial, num_values)
+    }
+    /// `polynomial::double_evaluations`
+    pub fn double_evaluations<F: NttFriendlyFieldElement>(output: &mut [F], evaluations: &[F]) -> Result<(), NttError> {
+        crate::polynomial::double_evaluations(output, evaluations)
+    }
+    /// `polynomial::poly_mul_lagrange`
+    pub fn poly_mul_lagrange<F: NttFriendlyFieldElement>(output: &mut [F], p: &[F], q: &[F]) -> Result<(), NttError> {
+        crate::polynomial::poly_mul_lagrange(output, p, q)
+    }
+    /// `polynomial::poly_range_check`
+    pub fn poly_range_check<F: NttFriendlyFieldElement>(start: usize, end: usize) -> Vec<F> {
+        crate::polynomial::poly_range_check(start, end)
+    }
+    /// `polynomial::poly_eval_monomial`
+    pub fn poly_eval_monomial<F: NttFriendlyFieldElement>(poly: &[F], eval_at: F) -> F {
+        crate::polynomial::poly_eval_monomial(poly, eval_at)
+    }
+    /// `polynomial::poly_mul_monomial`
+    pub fn poly_mul_monomial<F: NttFriendlyFieldElement>(p: &[F], q: &[F]) -> Vec<F> {
+        crate::polynomial::poly_mul_monomial(p, q)
+    }
+    /// `polynomial::poly_deg`
+    pub fn poly_deg<F: NttFriendlyFieldElement>(p: &[F]) -> usize {
+        crate::polynomial::poly_deg(p)
+    }
+}
